@@ -8,6 +8,7 @@ desc = {"doc": str,
         "kwargs": None | str}
 D = None (absent) | {"v": <python literal>} | {"code": "<expr>"}
 """
+import os
 
 WORDS = ["alpha", "batch", "count", "depth", "epochs", "factor", "gamma", "height", "index", "jitter", "kernel",
          "limit", "momentum", "name", "offset", "path", "quota", "rate", "seed", "timeout", "units", "verbose",
@@ -18,6 +19,9 @@ PROSE = ["number of {n} items to use", "name of the {n}", "whether to shuffle th
          "directory holding the {n}", "size of one {n}", "how the {n} is initialised", "upper bound on the {n}",
          "the {n} to start from", "weight given to the {n}"]
 SCALARS = ["str", "int", "float", "bool"]
+
+
+RETDOC_P = float(os.environ.get("DTSIM_RETDOC_P", "0.08"))
 
 
 def gen_default(ch, typ, label):
@@ -52,7 +56,7 @@ def gen_type(ch, label, profile):
     return ch.weighted(label, pool)
 
 
-def gen_desc(ch, profile="conservative", min_params=1, max_params=5, label="desc"):
+def gen_desc(ch, profile="conservative", min_params=1, max_params=5, label="desc", retdoc_p=None):
     n = ch.int(label + ".n", min_params, max_params)
     names = ch.sample(label + ".names", WORDS, n)
     if n >= 2 and ch.chance(label + ".related", 0.2):
@@ -81,6 +85,9 @@ def gen_desc(ch, profile="conservative", min_params=1, max_params=5, label="desc
         # steering (DESIGN §7.2): a return entry without default expression trips a known emitter defect (F04)
         rdef = gen_default(ch, rtyp, label + ".ret.def") if ch.chance(label + ".ret.hasdef", 0.9) else None
         returns = {"typ": rtyp, "doc": "the resulting " + ch.choice(label + ".ret.noun", NOUNS), "default": rdef}
+    if returns is None and ch.chance(label + ".retdoc", RETDOC_P if retdoc_p is None else retdoc_p):
+        # a return value whose default only the docstring states ("..., defaults to None"); the body need not end with `return`
+        returns = {"typ": ch.choice(label + ".retdoc.typ", ["Optional[int]", "Optional[str]"]), "doc": "the outcome of the " + ch.choice(label + ".retdoc.noun", NOUNS) + ", defaults to None", "default": None}
     doc = "%s the %s." % (ch.choice(label + ".verb", VERBS), ch.choice(label + ".noun", NOUNS))
     if ch.chance(label + ".doc2", 0.3):
         doc += " Uses the %s." % ch.choice(label + ".noun2", NOUNS)
@@ -262,7 +269,7 @@ def _doc_lines(style, params, r, inline_types, ind):
             lines.append("")
         if r:
             lines += [ind + "Returns", ind + "-------"]
-            lines.append(ind + "%s : %s" % ("return_type", r.get("typ") or "object"))
+            lines.append(ind + "%s" % (r.get("typ") or "object"))  # the unnamed form, which is also what doctrans itself emits
             lines.append(ind + "    %s" % (r.get("doc") or ""))
         if lines and lines[-1] == "":
             lines.pop()
